@@ -102,7 +102,31 @@ func HarnessC18Defaults() {
 	s := spec.Schema{}
 	obj := map[string]interface{}{}
 	keys := []string{"a", "b", "k"}
-	switch verifChoose(5) {
+	switch verifChoose(8) {
+	case 5: // properties next to oneOf: the matching alternative is the first or the second
+		s = objWith(map[string]spec.Schema{"b": numSchema(20.0)})
+		a1 := objWith(map[string]spec.Schema{"k": enumSchema(1), "a": numSchema(10.0)})
+		a1.Required = []string{"k"}
+		a2 := objWith(map[string]spec.Schema{"k": enumSchema(2), "a": numSchema(11.0)})
+		a2.Required = []string{"k"}
+		s.OneOf = []spec.Schema{a1, a2}
+	case 6: // allOf next to oneOf and anyOf
+		a1 := objWith(map[string]spec.Schema{"k": enumSchema(1)})
+		a1.Required = []string{"k"}
+		a2 := objWith(map[string]spec.Schema{"k": enumSchema(2)})
+		a2.Required = []string{"k"}
+		a3 := objWith(map[string]spec.Schema{"k": enumSchema(3)})
+		s.OneOf = []spec.Schema{a1, a2, a3}
+		s.AnyOf = []spec.Schema{a2, a1}
+		s.AllOf = []spec.Schema{objWith(map[string]spec.Schema{"a": numSchema(10.0)}), objWith(map[string]spec.Schema{"b": numSchema(20.0)})}
+	case 7: // a nested object below the composed schema: defaults after a oneOf has matched early
+		in := objWith(map[string]spec.Schema{"b": numSchema(20.0)})
+		a1 := objWith(map[string]spec.Schema{"k": enumSchema(1)})
+		a1.Required = []string{"k"}
+		a2 := objWith(map[string]spec.Schema{"k": enumSchema(2)})
+		a2.Required = []string{"k"}
+		s = objWith(map[string]spec.Schema{"a": numSchema(10.0), "z": in})
+		s.OneOf = []spec.Schema{a1, a2}
 	case 0: // plain properties; n has a default and no type, so that null is a valid value for it
 		n := spec.Schema{}
 		n.Default = 7.0
@@ -322,7 +346,18 @@ func HarnessC19Nested() {
 	}
 	before := copyObj(el)
 	var data interface{}
-	switch verifChoose(6) {
+	want := &inner
+	switch verifChoose(8) {
+	case 6: // a member that is a declared property and also matches a pattern property: both schemas describe its content
+		pin := objWith(map[string]spec.Schema{"z": numSchema(nil)})
+		s = objWith(map[string]spec.Schema{"meta": inner})
+		s.PatternProperties = map[string]spec.Schema{"^m": pin}
+		data = map[string]interface{}{"meta": el, "junk": 1.0}
+		want = &spec.Schema{}
+		want.AllOf = []spec.Schema{inner, pin}
+	case 7: // a member described by a pattern property only
+		s.PatternProperties = map[string]spec.Schema{"^m": inner}
+		data = map[string]interface{}{"mx": el, "junk": 1.0}
 	case 0:
 		s = objWith(map[string]spec.Schema{"o": inner})
 		data = map[string]interface{}{"o": el, "junk": 1.0}
@@ -349,7 +384,7 @@ func HarnessC19Nested() {
 	res := validate.NewSchemaValidator(&s, nil, "", nil).Validate(data)
 	verifAssume(res.IsValid())
 	Prune(res)
-	checkPrunedAt(&inner, before, el, []string{"a", "z"})
+	checkPrunedAt(want, before, el, []string{"a", "z"})
 	if top, ok := data.(map[string]interface{}); ok {
 		_, junk := top["junk"]
 		verifAssert(!junk, "undescribed-member-is-removed")
